@@ -74,7 +74,7 @@ VOLUMES = {
 METHODS = ("explicit", "auto", "average-outside", "average-outside-zero")
 OPTSETS = {"default": [], "flat-nogzip": ["--flat", "--no-gzip"],
            "nogzip": ["--no-gzip"], "sharded": [], "valuemap": [],
-           "valuemap-max": []}
+           "valuemap-max": [], "valuemap-desc": [], "valuemap-negmax": []}
 # value-mapping options given to every command that reads the volume
 VALUEMAP = ["--ignore-scaling", "--input-min", "10", "--input-max", "300"]
 VALUEMAP_MAX = ["--input-max", "300"]      # input-min left at its default
@@ -115,7 +115,12 @@ def commands(vol, optset, ws, mmap, method="explicit"):
     else:
         dsm = ["--downscaling-method", "majority" if seg else "stride"]
     vm = (VALUEMAP if optset == "valuemap" else
-          VALUEMAP_MAX if optset == "valuemap-max" else [])
+          VALUEMAP_MAX if optset == "valuemap-max" else
+          # a descending range (inverted contrast) and its spelling through
+          # the default lower bound
+          ["--input-min", "300", "--input-max", "0"]
+          if optset == "valuemap-desc" else
+          ["--input-max", "-50"] if optset == "valuemap-negmax" else [])
     tcs = (["--target-chunk-size", str(v["tcs"])] if v.get("tcs") else [])
     cmds = {
         "gen-info": ("volume_to_precomputed",
